@@ -180,6 +180,7 @@ func (g *PGen) e1(d int) *Node {
 		0,  // 19 callbacks
 		1,  // 20 expr lambda
 		1,  // 21 closure counter
+		2,  // 22 Go-implemented macros (get-default, curry-function)
 	}
 	if g.o.Swallow {
 		w[15] = 5
@@ -286,6 +287,8 @@ func (g *PGen) e1(d int) *Node {
 	case 18:
 		m := PickStr(g.r, g.macros)
 		switch m[0] {
+		case 'i': // identity macro: its own frame is the deepest thing it pushes
+			return Call(m, g.E(d-1))
 		case 'w': // re-expanding macro (n x)
 			return Call(m, I(g.r.Range(0, 4)), g.E(d-1))
 		case 'c': // counting macro (n)
@@ -295,6 +298,11 @@ func (g *PGen) e1(d int) *Node {
 		}
 	case 19:
 		return g.callback(d)
+	case 22:
+		if g.r.Bool() {
+			return Call("get-default", Call("sorted-map", QS("k"), g.E(d-1)), QS(PickStr(g.r, []string{"k", "missing"})), g.E(d-1))
+		}
+		return Call("funcall", Call("curry-function", A("+"), g.E(d-1)), g.E(d-1))
 	case 20:
 		return Call("funcall", Call("expr", Call("+", A("%"), g.E(d-1))), g.E(d-1))
 	default:
@@ -568,7 +576,11 @@ func (g *PGen) Defs(d int) []*Node {
 	if g.o.Macros {
 		nm := g.r.Range(0, 2)
 		for i := 0; i < nm; i++ {
-			switch g.r.Intn(3) {
+			switch g.r.Intn(4) {
+			case 3:
+				name := g.sym("i")
+				out = append(out, L(A("defmacro"), A(name), L(A("x")), A("x")))
+				g.macros = append(g.macros, name)
 			case 0:
 				name := g.sym("m")
 				out = append(out, L(A("defmacro"), A(name), L(A("x")),
